@@ -668,6 +668,9 @@ func (e *Engine) evalOpenOptions(pkg, rest string) (bool, string) {
 					continue
 				}
 				found++
+				if want == "first" && found > 1 {
+					continue
+				}
 				opt := ci.Common().Args[2]
 				alloc, ok := opt.(*ssa.Alloc)
 				if !ok {
@@ -698,8 +701,12 @@ func (e *Engine) evalOpenOptions(pkg, rest string) (bool, string) {
 				if nstores > 1 {
 					val = "assigned more than once"
 				}
-				if val != want {
-					return false, fmt.Sprintf("%s: bbolt.Open called with %s = %s, want %s", funcKey(fn), field, val, want)
+				wantv := want
+				if want == "first" {
+					wantv = "true"
+				}
+				if val != wantv {
+					return false, fmt.Sprintf("%s: bbolt.Open called with %s = %s, want %s", funcKey(fn), field, val, wantv)
 				}
 			}
 		}
